@@ -29,6 +29,9 @@ class Module:
         self.rel = str(path.relative_to(root / "pdb2pqr"))
         self.src = path.read_text(encoding="utf-8")
         self.tree = ast.parse(self.src, filename=str(path))
+        # analysis modulo alpha-equivalence: locals are renamed towards the reference naming (see alpha.py)
+        from . import alpha
+        self.alpha = alpha.normalise(self.tree, self.rel) if os.environ.get("VERIF_NO_ALPHA") != "1" else {}
         for parent in ast.walk(self.tree):
             for child in ast.iter_child_nodes(parent):
                 child._parent = parent  # type: ignore[attr-defined]
